@@ -1592,10 +1592,10 @@ class ArmiObject(metaclass=CompositeModelType):
         }
         self.setNumberDensities(densitiesScaled)
         # Update detailedNDens
-        if self.p.detailedNDens is not None:
+        if self.p.get("detailedNDens") is not None:
             self.p.detailedNDens *= factor
         # Update pinNDens
-        if self.p.pinNDens is not None:
+        if self.p.get("pinNDens") is not None:
             self.p.pinNDens *= factor
 
     def clearNumberDensities(self):
